@@ -95,6 +95,11 @@ void set_tag(const char* fmt, ...) __attribute__((format(printf, 1, 2)));
 // After an injected fault some properties promise safety only: a hang (deadlock/livelock) is then reported with
 // class "hang-after-fault", which checks count as inconclusive, not as a violation.
 void set_hang_after_fault_ok(bool on);
+// Optional: called when a hang is about to be classed "hang-after-fault"; return true if this hang is one of the
+// tolerated kinds, false (and a reason in why) to report it as the deadlock/livelock it is.
+void set_hang_triage(bool (*fn)(char* why, size_t n));
+// address of the latest schedule point of a fiber (what a spinning fiber keeps reading)
+const void* last_point_addr(int fid);
 void mark_window();
 void set_sample(const std::string& program_text);   // human-readable program for evidence samples
 
